@@ -77,6 +77,7 @@ type Result struct {
 	Unwritten []pdf.Reference
 	Foreign   []pdf.Reference
 	Info      *pdf.Info
+	Catalog   *pdf.Catalog // catalog fields that were set (nil: none)
 	ID        [][]byte
 	PagesRef  pdf.Reference
 	Err       error  // first error returned by a Writer call
@@ -252,6 +253,21 @@ func (x *exec) run(sink io.Writer) {
 	}
 	x.record(pages, &Expect{Obj: gen.Clone(pd), How: "pages"})
 	w.GetMeta().Catalog.Pages = pages
+	if t.Bool("catalog.fields", 1, 3) {
+		cat := w.GetMeta().Catalog
+		cat.PageLayout = tape.Pick(t, "catalog.layout", pdf.Name(""), "TwoColumnLeft", "SinglePage")
+		cat.PageMode = tape.Pick(t, "catalog.mode", pdf.Name(""), "UseOutlines", "FullScreen")
+		if cfg.Version >= pdf.V1_2 && t.Bool("catalog.vp", 1, 2) {
+			cat.ViewerPreferences = pdf.Dict{"FitWindow": pdf.Boolean(true), "Direction": pdf.Name("R2L")}
+		}
+		if cfg.Version >= pdf.V1_4 && t.Bool("catalog.markinfo", 1, 2) {
+			cat.MarkInfo = pdf.Dict{"Marked": pdf.Boolean(true)}
+		}
+		if cfg.Version >= pdf.V1_1 && t.Bool("catalog.uri", 1, 3) {
+			cat.URI = pdf.Dict{"Base": pdf.String("http://example.com/(x)")}
+		}
+		res.Catalog = &pdf.Catalog{PageLayout: cat.PageLayout, PageMode: cat.PageMode, ViewerPreferences: gen.Clone(objOrNil(cat.ViewerPreferences)), MarkInfo: gen.Clone(objOrNil(cat.MarkInfo)), URI: gen.Clone(objOrNil(cat.URI))}
+	}
 	res.OpNames = append(res.OpNames, "close")
 	if x.fail("Close", w.Close()) {
 		return
@@ -276,6 +292,12 @@ func (x *exec) setInfo() {
 	if t.Bool("info.date", 1, 2) {
 		sec := int64(t.Draw("info.datev", 2000000000))
 		info.CreationDate = pdf.Date(time.Unix(sec, 0).UTC())
+	}
+	if t.Bool("info.more", 1, 3) {
+		info.Subject = pdf.TextString(infoTexts[t.Draw("info.subject", len(infoTexts))])
+		info.Creator = pdf.TextString(infoTexts[t.Draw("info.creator", len(infoTexts))])
+		info.Producer = pdf.TextString(infoTexts[t.Draw("info.producer", len(infoTexts))])
+		info.ModDate = pdf.Date(time.Unix(int64(t.Draw("info.moddate", 2000000000)), 0).UTC())
 	}
 	if t.Bool("info.custom", 1, 3) {
 		info.Custom = map[string]string{"VerifKey": infoTexts[1+t.Draw("info.customv", len(infoTexts)-1)]}
@@ -624,6 +646,13 @@ func (x *exec) opWriterGet() {
 	if d := gen.Diff(exp.Obj, got, ""); d != "" {
 		x.res.GetDiffs = append(x.res.GetDiffs, fmt.Sprintf("Writer.Get(%s): %s", ref, d))
 	}
+}
+
+func objOrNil(o pdf.Object) pdf.Object {
+	if o == nil {
+		return nil
+	}
+	return o
 }
 
 // DictDiff compares a stream dictionary modulo the entries that describe the
